@@ -45,7 +45,7 @@ ASSUMPTIONS = [
     "values come from a domain whose round-trip identity holds on the pinned tree; text outputs are compared through the library's own str()/repr() of the source values",
 ]
 EXPECTED_PROBES = ["faulty-first", "faulty-last", "faulty-between", "all-faulty", "truncated-nonempty-prefix", "skip-spans-source-boundary", "count-reached-before-failing-source",
-                   "split-multiple-of-limit", "zero-records-with-writer", "stdin-source", "read-error-source", "multi-timestamp-expanded", "same-name-different-fields"]  # fmt: skip
+                   "split-multiple-of-limit", "zero-records-with-writer", "stdin-source", "read-error-source", "multi-timestamp-expanded", "same-name-different-fields", "grouped-record-source"]  # fmt: skip
 
 UTC = _dt.timezone.utc
 G = _dt.datetime(2030, 1, 1, tzinfo=UTC)
@@ -230,6 +230,13 @@ def generate(rng, tier, index):
                 kind = "good"
             have_stdin = True
         sources.append(gen_source(rng, kind, i, tier, only))
+    if mode in ("stream", "stream-gz", "split", "stdout-stream") and not only and rng.random() < 0.35:
+        for s in sources:
+            if s["kind"] in ("good", "stdin", "trunc") and s.get("recs"):
+                for r in s["recs"]:
+                    if r["desc"] == "B" and rng.random() < 0.5:
+                        # a grouped record of a B and a D member (flat view: n, q, f)
+                        r["group"] = {"name": "t/g", "other": {"desc": "D", "values": [rng.random() < 0.5, rng.choice(["q", "r"]), rng.choice([0, 1, 2])]}}
     return {"sources": sources, "opts": opts, "mode": mode, "pool": POOL}
 
 
@@ -256,6 +263,12 @@ def make_record(descs, r):
     rec = d(*[dec_value(v) for v in r["values"]])
     for k, v in r.get("meta", {}).items():
         setattr(rec, k, v)
+    if r.get("group"):
+        from flow.record import GroupedRecord
+
+        g = r["group"]
+        other = descs[g["other"]["desc"]](*[dec_value(v) for v in g["other"]["values"]])
+        rec = GroupedRecord(g["name"], [rec, other])
     return rec
 
 
@@ -413,6 +426,8 @@ def model_of(r, opts):
         "source": opts["rsrc"] if opts["rsrc"] is not None else r._source,
         "cls": opts["rcls"] if opts["rcls"] is not None else r._classification,
         "expanded": False,
+        # a grouped record stays grouped unless a projection rebuilds it as a flat record
+        "members": None if (opts["F"] or opts["X"]) else members_obs(r),
     }
 
 
@@ -438,8 +453,19 @@ def obs_fields(fields):
     return [[f, t, obs_value(v)] for f, t, v in fields]
 
 
+def members_obs(r):
+    from flow.record import GroupedRecord
+
+    from ..observe import obs_record
+
+    if isinstance(r, GroupedRecord):
+        return [obs_record(m, meta=False) for m in r.records]
+    return None
+
+
 def rec_model(r):
-    return {"name": r._desc.name, "fields": [(f, r._desc.fields[f].typename, getattr(r, f)) for f in r._desc.fields], "source": r._source, "cls": r._classification}
+    return {"name": r._desc.name, "fields": [(f, r._desc.fields[f].typename, getattr(r, f)) for f in r._desc.fields], "source": r._source, "cls": r._classification,
+            "members": members_obs(r)}  # fmt: skip
 
 
 def cmp_models(got, exp, what):
@@ -455,6 +481,8 @@ def cmp_models(got, exp, what):
             return "%s: record %d is %s %s, expected %s %s" % (what, i, g["name"], short(obs_fields(g["fields"]), 200), e["name"], short(obs_fields(e["fields"]), 200))
         if not e["expanded"] and (g["source"], g["cls"]) != (e["source"], e["cls"]):
             return "%s: record %d metadata (_source, _classification) is %r, expected %r" % (what, i, (g["source"], g["cls"]), (e["source"], e["cls"]))
+        if "members" in g and "members" in e and not e["expanded"] and g["members"] != e["members"]:
+            return "%s: record %d grouping differs: got members %s, expected %s" % (what, i, short(g["members"], 160), short(e["members"], 160))
     return None
 
 
@@ -519,6 +547,8 @@ def execute(plan, keep_log=False):
                 names.add(r["desc"])
         if "A" in names and "A2" in names:
             w.probe("same-name-different-fields")
+        if any(r.get("group") for s in plan["sources"] for r in s.get("recs", [])):
+            w.probe("grouped-record-source")
         # placement probes
         faulty = [k in FAULT_KINDS for k in kinds]
         if any(faulty):
